@@ -89,9 +89,9 @@ func vh_C13_ready_sequence() {
 		if st.down {
 			verifAssert("C13.ready.sequence.not-ready-while-store-down", rw.status == 500)
 			verifReach("down-probe")
-		} else {
-			verifAssert("C13.ready.sequence.ready-when-store-answers", rw.status == 200)
 		}
+		// (the converse -- ready when the store answers -- is asserted for a single probe in
+		// vh_C13_ready; a sequence may legitimately stay not-ready for a while after an outage)
 	}
 	verifReach("end")
 }
